@@ -149,7 +149,7 @@ def gen_case(rng, flavor=None, size=None):
             if not clean:
                 ops.append(['commit', None])
                 end_txn(True)
-            ops.append(['undo', rng.choice([1, 1, 1, 2, 3])])
+            ops.append(['undo', rng.choice([1, 1, 1, 2, 3])] + ([rng.choice([1, 1, 2])] if rng.random() < 0.35 else []))
             # the symbolic view may now be off (un-creation, relinking): forget what is uncertain
             clean = True
             if rng.random() < 0.5:
@@ -478,8 +478,8 @@ def run_case(case, root):
                 """update ledger + committed view after a successful commit of connection 0"""
                 last_tid[0] = tid
                 oids = {}
-                root_before = dict(C['linked']) if (V['root'] or undo_of is not None and undo_of['root_before']
-                                                    is not None) else None
+                root_before = dict(C['linked']) if (V['root'] or undo_of is not None and
+                                                    any(u['root_before'] is not None for u in undo_of)) else None
                 if undo_of is None:
                     for slot in sorted(V['dirty'] | V['created']):
                         b = objs.get(slot)
@@ -497,10 +497,16 @@ def run_case(case, root):
                                    and objs[s]._p_oid is not None}
                 else:
                     nontrivial[0] = True                      # undone
-                    for oid, slot in undo_of['oids'].items():
-                        known, b = prev_bytes(oid, undo_of['tid'])
-                        if not known:
-                            b = env.scan()[0].get((oid, tid))
+                    vals = {}                                 # the LAST undo of an object decides its bytes
+                    for u in undo_of:
+                        for oid, slot in u['oids'].items():
+                            known, b = prev_bytes(oid, u['tid'])
+                            if not known:
+                                b = env.scan()[0].get((oid, tid))
+                            vals[oid] = (slot, b)
+                        if u['root_before'] is not None:
+                            C['linked'] = dict(u['root_before'])
+                    for oid, (slot, b) in vals.items():
                         hist.setdefault(oid, []).append((tid, b))
                         oids[oid] = slot
                         if b is not None:
@@ -508,8 +514,6 @@ def run_case(case, root):
                             C['bytes'][slot] = b
                         else:
                             C['bytes'].pop(slot, None)
-                    if undo_of['root_before'] is not None:
-                        C['linked'] = dict(undo_of['root_before'])
                 txns.append(dict(tid=tid, oids=oids, root_before=root_before, linked_after=dict(C['linked'])))
                 reset_view()
                 # identity of the objects now linked (observation of identity only)
@@ -838,11 +842,31 @@ def run_case(case, root):
                         if flavor == 'wrap' or not cands or V['dirty'] or V['created'] or V['root']:
                             cnt('skip')               # MappingStorage has no undo
                             continue
-                        t = cands[-min(op[1], len(cands))]
+                        i0 = len(cands) - min(op[1], len(cands))
+                        extra = op[2] if len(op) > 2 else 0
+                        us = [cands[i] for i in range(i0, max(i0 - extra, 0) - 1, -1)]     # newest first
+                        if len(us) > 1:
+                            # excluded multi-undos: a later undo un-creates an object whose blob copy an earlier one
+                            # of the same transaction has put in place (the code leaves that file), or a revision
+                            # to restore was packed away
+                            pend, skip = {}, False
+                            for u in us:
+                                for oid in u['oids']:
+                                    known, b = prev_bytes(oid, u['tid'])
+                                    if not known or (isinstance(pend.get(oid), bytes) and b is None):
+                                        skip = True
+                                    pend[oid] = b
+                            if skip:
+                                cnt('skip:multi-undo-uncreates')
+                                continue
                         c1_drop()
                         tm0.abort()
                         F0.clear()
-                        db.undo(encodebytes(p64(t['tid'])).rstrip(), tm0.get())
+                        ids = [encodebytes(p64(u['tid'])).rstrip() for u in us]
+                        if len(ids) == 1:
+                            db.undo(ids[0], tm0.get())
+                        else:
+                            db.undoMultiple(ids, tm0.get())
                         try:
                             tm0.commit()
                         except Exception as e:
@@ -852,7 +876,12 @@ def run_case(case, root):
                             boundary('undo-failed')
                             continue
                         guard()
-                        committed(u64(db.lastTransaction()), undo_of=t)
+                        if len(us) > 1:
+                            cnt('multi-undo')
+                            seen_o = [o for u in us for o in u['oids']]
+                            if len(seen_o) != len(set(seen_o)):
+                                cnt('multi-undo:same-object-twice')
+                        committed(u64(db.lastTransaction()), undo_of=us)
                         boundary('undo')
                     elif kind == 'pack':
                         if not txns or V['dirty'] or V['created'] or V['root']:
